@@ -88,7 +88,7 @@ theorem maximal_run_finished {s : CState} (hr : Reach (sys conc c ac acl prog fl
 
 /-- non-vacuity: the bound is met within a factor — the 16-block schedule of `finalise_waits`'
     example (3 calls) is admissible -/
-example : (run (sys true 1 false false [.push ⟨2, 0⟩, .push ⟨1, 0⟩, .finalise] none)
+example : (run (sys true 1 false false [.push ⟨2, 0⟩, .push ⟨1, 0⟩, .finalise] [])
     [0, 0, 0, 0, 1, 1, 1, 1, 1, 0, 0, 0, 0, 0, 0, 0]).isSome = true := by decide
 
 end Biogo.Properties.C12_termination
